@@ -510,12 +510,19 @@ def optable(ctx, config='default'):
             s['callees'] = sorted(callees)
             s['reads_local'] = any(c in ('vm::VM::get_local', 'vm::VM::set_local') for c in callees)
             g = False
+            gw = False
             for b in arm['region']:
                 for st in fn.blocks[b]['stmts']:
                     if st['k'] == 'assign':
                         for pl in (st['place'], st['rv'].get('place')):
                             if pl and 'globals' in place_fields(pl):
                                 g = True
+                        if 'globals' in place_fields(st['place']):
+                            gw = True
+                        if st['rv'].get('k') == 'ref' and st['rv'].get('mut') and st['rv'].get('place') and 'globals' in place_fields(st['rv']['place']):
+                            gw = True
+            # the arm stores into a variable's slot (a frame slot through set_local, a global through `globals[i] = ..`)
+            s['writes_slot'] = 'vm::VM::set_local' in callees or (gw and 'gc::GC::run' not in callees and bool(s['fetch']))
             s['reads_global'] = g and 'gc::GC::run' not in callees and bool(s['fetch'])
             out[op] = s
         return out, probs
